@@ -20,6 +20,9 @@ from typing import Dict, Iterator, List, Optional, Tuple
 PKG = "mlinsights"
 
 
+CURRENT_REPO: List[Optional["Repo"]] = [None]
+
+
 class AnalysisError(Exception):
     """The analyser met a shape it does not understand (-> exit 2)."""
 
@@ -105,6 +108,7 @@ class Repo:
         self.all_functions: Dict[str, FunctionInfo] = {}
         self.parse_failures: List[str] = []
         self._load()
+        CURRENT_REPO[0] = self  # the repository view the running rule analyses
 
     # ------------------------------------------------------------------ VFS
     def read(self, relpath: str) -> str:
